@@ -125,11 +125,11 @@ namespace Ex
 
 /-- The module `deap.creator` of the pickling interpreter: the classes of `Ex.ct`, the individual
 class (class 1, `dict_cls` attribute `9 ↦ 3`) bound to the name 5 … -/
-def modSrc : Module := ⟨ct, [(4, 0), (5, 1), (6, 2)]⟩
+def modSrc : Module := ⟨ct, [(4, 0), (5, 1), (6, 2)], [4, 5, 6]⟩
 
 /-- … and of an unpickling interpreter in which the name 5 is already bound to a *different*
 individual class (`dict_cls` attribute `9 ↦ 4`, no fitness). -/
-def modDst : Module := ⟨[⟨.plain, [], [(9, .atom 4)]⟩], [(5, 0)]⟩
+def modDst : Module := ⟨[⟨.plain, [], [(9, .atom 4)]⟩], [(5, 0)], [5]⟩
 
 end Ex
 
